@@ -153,9 +153,9 @@ def c17_oracle(c):
         got = []
         for grp in placements:
             # recover R from first leaf: R = Mi * inv(Mo) (Mo rigid/affine with no shear here): use translation-free check on all leaves
-            found = None
-            for j, R in enumerate(want):
-                if all(mclose(mm(R, Mo), Mi, 1e-9) for (cx, Mi, li), (c0, Mo, lo) in zip(grp, seedfl)): found = j; break
+            # several k may fit within the tolerance when the step is tiny (degrees next to 0): take the first one not used yet
+            fits = [j for j, R in enumerate(want) if all(mclose(mm(R, Mo), Mi, 1e-9) for (cx, Mi, li), (c0, Mo, lo) in zip(grp, seedfl))]
+            found = next((j for j in fits if j not in got), fits[0] if fits else None)
             if found is None: return fail('polar_array_placement_is_rotation_by_minus_k_step', args=a, step=step)
             got.append(found)
         if set(got) != set(range(count)): return fail('polar_array_placements_are_exactly_k_steps', args=a, got=sorted(set(got)), want=list(range(count)))
